@@ -157,13 +157,14 @@ Proof.
   eexists _, _. lf.
 Qed.
 
-Lemma cleanup_loop_U ll total : forall files w idx, U2 (fun W => cleanup_loop W files idx ll total) w.
+Lemma cleanup_loop_U ll total cur : forall files w idx, U2 (fun W => cleanup_loop W files idx ll total cur) w.
 Proof.
   induction files as [|nm r IH]; intros w idx; unfold U2; cbn [cleanup_loop].
   - exists true, w. reflexivity.
-  - assert (C : exists a w', forall l es n,
+  - destruct (match cur with Some p => beq p nm | None => false end); [apply IH|].
+    assert (C : exists a w', forall l es n,
                (let '(ok, w1) := compress_file (X l es n w) nm in
-                if ok then cleanup_loop w1 r (S idx) ll total else (false, w1)) = (a, X l es n w')).
+                if ok then cleanup_loop w1 r (S idx) ll total cur else (false, w1)) = (a, X l es n w')).
     { destruct (compress_file_U nm w) as [ok [w1 E]]. destruct ok.
       - destruct (IH w1 (S idx)) as [a [w2 E2]]. exists a, w2. intros. rewrite E. apply E2.
       - exists false, w1. intros. rewrite E. reflexivity. }
@@ -184,7 +185,7 @@ Proof.
     + exists false, w1, files. intros. rewrite E. reflexivity.
 Qed.
 
-Lemma cleanup_impl_U c k flt direct w : U2 (fun W => cleanup_impl c W k flt direct) w.
+Lemma cleanup_impl_U c k flt cur w : U2 (fun W => cleanup_impl c W k flt cur) w.
 Proof.
   assert (G : forall ll tot, exists a w', forall l es n,
             (let '(fl, w1) := tick (X l es n w) in
@@ -194,14 +195,14 @@ Proof.
              | Some files =>
                let '(ok0, w1', files') := remove_redundant w1 (redundant_gz files) files in
                if negb ok0 then (Err, w1') else
-               let '(ok, w2) := cleanup_loop w1' files' 0 ll tot in
+               let '(ok, w2) := cleanup_loop w1' files' 0 ll tot cur in
                ((if ok then Ok tt else Err), w2)
              end) = (a, X l es n w')).
   { intros ll tot. destruct (tick_U w) as [fl [w1 T]]. destruct fl; [exists Err, w1; lf|].
     destruct (list_log_gz (woff w1) (c_spec c) (fixed_of c w1) (wfs w1) flt) as [files|] eqn:El; [|exists Panic, w1; lf].
     destruct (remove_redundant_U (redundant_gz files) files w1) as [ok0 [w1' [files' ER]]].
     destruct ok0; [|exists Err, w1'; lf].
-    destruct (cleanup_loop_U ll tot files' w1' 0) as [ok [w2 EC]].
+    destruct (cleanup_loop_U ll tot cur files' w1' 0) as [ok [w2 EC]].
     eexists _, _. lf. }
   unfold U2, cleanup_impl. destruct k; [exists (Ok tt), w; reflexivity | | |]; apply G.
 Qed.
@@ -359,20 +360,20 @@ Qed.
 Definition V2 {A} (f : world -> A * world) (n : nat) (w : world) : Prop :=
   exists a w' n', forall l es, f (X l es n w) = (a, X l es n' w').
 
-Lemma cleanup_or_queue_V c bg k flt direct n w : V2 (fun W => cleanup_or_queue c W bg k flt direct) n w.
+Lemma cleanup_or_queue_V c bg k flt cur n w : V2 (fun W => cleanup_or_queue c W bg k flt cur) n w.
 Proof.
   unfold V2, cleanup_or_queue. destruct bg.
   - assert (G : exists a w' n', forall l es,
               (if Nat.eqb (wacts (X l es n w)) 1 then (Ok tt, X l es n w) else
-               match cleanup_impl c (X l es n w) k flt direct with
+               match cleanup_impl c (X l es n w) k flt cur with
                | (Panic, w1) => (Ok tt, set_acts w1 1)
                | (_, w1) => (Ok tt, w1)
                end) = (a, X l es n' w')).
     { xs. destruct (Nat.eqb n 1); [exists (Ok tt), w, n; reflexivity|].
-      destruct (cleanup_impl_U c k flt direct w) as [r [w1 E]].
+      destruct (cleanup_impl_U c k flt cur w) as [r [w1 E]].
       destruct r as [u| |]; [exists (Ok tt), w1, n | exists (Ok tt), w1, n | exists (Ok tt), w1, 1]; intros; rewrite E; reflexivity. }
     destruct k; [exists (Ok tt), w, n; reflexivity | | |]; exact G.
-  - destruct (cleanup_impl_U c k flt direct w) as [r [w1 E]]. exists r, w1, n. intros. apply E.
+  - destruct (cleanup_impl_U c k flt cur w) as [r [w1 E]]. exists r, w1, n. intros. apply E.
 Qed.
 
 (* ------------------------------------------------------------------ flush, shutdown, drop: no configuration involved *)
@@ -412,7 +413,7 @@ Definition initialize_g (o : opn_t) (c : config) (w : world) : res inner * world
     bind (roll_new w2 crit (c_append c) path) (fun roll w3 =>
     bind (match k with
           | KNever => (Ok tt, w3)
-          | _ => cleanup_impl c w3 k (ns_filter ns) (naming_writes_direct nam)
+          | _ => cleanup_impl c w3 k (ns_filter ns) (if naming_writes_direct nam then Some path else None)
           end) (fun _ w4 =>
     let bg := match k with KNever => false | _ => c_bg c end in
     (Ok (Active (Some {| rs_naming := ns; rs_roll := roll; rs_cleanup := k; rs_bg := bg |}) wr path),
@@ -449,7 +450,7 @@ Definition finish_rotation (c : config) (w2 : world) (rs : rot_state) (ns1 : nam
   let w2b := if okf then w2a else report EFlush w2a in
   let w3 := w_drop w2b wra in
   let roll' := reset_size_and_date w3 (rs_roll rs) path' in
-  let '(rc, w4) := cleanup_or_queue c w3 (rs_bg rs) (rs_cleanup rs) (ns_filter ns1) (ns_writes_direct ns1) in
+  let '(rc, w4) := cleanup_or_queue c w3 (rs_bg rs) (rs_cleanup rs) (ns_filter ns1) (if ns_writes_direct ns1 then Some path' else None) in
   let st' := Active (Some {| rs_naming := ns1; rs_roll := roll'; rs_cleanup := rs_cleanup rs; rs_bg := rs_bg rs |}) wr' path' in
   (match rc with Ok _ => Ok tt | Err => Err | Panic => Panic end, w4, st').
 
@@ -593,7 +594,7 @@ Proof.
        | exists Panic, w3, n, ol; split; [lf | split; [lf | intros _ st H; discriminate H]]].
     assert (K : U2 (fun W => match k with
                              | KNever => (Ok tt, W)
-                             | _ => cleanup_impl c W k (ns_filter ns) (naming_writes_direct nam) end) w3).
+                             | _ => cleanup_impl c W k (ns_filter ns) (if naming_writes_direct nam then Some path else None) end) w3).
     { destruct k; [exists (Ok tt), w3; reflexivity | | |]; apply cleanup_impl_U. }
     destruct K as [r3 [w4 E3]].
     destruct r3 as [[]| |];
@@ -629,7 +630,7 @@ Proof.
   assert (B : exists w2b, forall l es n, (if okf then X l es n w2a else report EFlush (X l es n w2a)) = X l es n w2b).
   { destruct okf; [exists w2a; reflexivity|]. exists (rep EFlush w2a). intros. apply report_X. }
   destruct B as [w2b EB]. destruct (w_drop_U wra w2b) as [w3 ED].
-  destruct (cleanup_or_queue_V c (rs_bg rs) (rs_cleanup rs) (ns_filter ns1) (ns_writes_direct ns1) n w3) as [rc [w4 [n' EC]]].
+  destruct (cleanup_or_queue_V c (rs_bg rs) (rs_cleanup rs) (ns_filter ns1) (if ns_writes_direct ns1 then Some path' else None) n w3) as [rc [w4 [n' EC]]].
   eexists _, w4, _, n'. intros. rewrite EF. red_let. rewrite EB, ED, reset_size_and_date_X, EC. reflexivity.
 Qed.
 
